@@ -2,8 +2,10 @@
 """tools/seedstore.py <Cnn> <mK> "<what it needs to manifest>"  — copy a confirmed seed from /tmp/seed-Cnn/mK into /verif/seeded/Cnn-mK/"""
 import json, os, shutil, sys, re
 pid, m, needs = sys.argv[1], sys.argv[2], sys.argv[3]
-src = f"/tmp/seed-{pid}/{m}"
-dst = f"/verif/seeded/{pid}-{m}"
+rnd = sys.argv[4] if len(sys.argv) > 4 else "1"
+missed = sys.argv[5] if len(sys.argv) > 5 else ""
+src = f"/tmp/seed-{pid}/{m}" if rnd == "1" else f"/tmp/seed{rnd}-{pid}/{m}"
+dst = f"/verif/seeded/{pid}-{m}" if rnd == "1" else f"/verif/seeded/{pid}-r{rnd}{m}"
 os.makedirs(dst, exist_ok=True)
 for f in ("patch.diff", "demo_test.go", "README.md"):
     shutil.copy(os.path.join(src, f), os.path.join(dst, f))
@@ -17,7 +19,9 @@ prop = [json.loads(l) for l in open("/verif/properties.jsonl") if json.loads(l)[
 meta = {
     "property_id": pid,
     "property_title": prop["title"],
-    "origin": "written by a fresh sub-agent that was given only the text of the property and its own scratch worktree of /repo (nothing from /verif)",
+    "origin": "written by a fresh sub-agent that was given only the text of the property and its own scratch worktree of /repo (nothing from /verif)" if rnd == "1" else "round 2: written by a fresh sub-agent given the text of the property, its own scratch worktree of /repo, and the general remark that the harness under test is a bounded-exhaustive checker (small shapes, short histories, 2-3 goroutines, finite alphabets for 64-bit/float64 values) with the request to need something outside such a scope; nothing from /verif",
+    "round": int(rnd),
+    "initially_missed_then_check_strengthened": missed,
     "needs_to_manifest": needs,
     "confirmed_by": {
         "how": "tools/seedcheck.sh in a scratch worktree of /repo HEAD: go test -run TestDemo on the unchanged tree, go test . (existing suite) with the patch, go test -run TestDemo with the patch",
@@ -27,7 +31,7 @@ meta = {
         "go_test_flags": conf.group(4),
     },
     "checks_run_with_change": checks,
-    "ran": f"tools/seedcheck.sh /tmp/seed-{pid}/{m} {pid}  (quick tier, VERIF_REPO=<scratch worktree with the patch applied>)",
+    "ran": f"tools/seedcheck.sh {src} {pid}  (quick tier, VERIF_REPO=<scratch worktree with the patch applied>)",
 }
 json.dump(meta, open(os.path.join(dst, "meta.json"), "w"), indent=1)
 print(dst, [c["check"] + ("+" if c["detected"] else "-") for c in checks])
